@@ -155,7 +155,7 @@ def c15_scenarios(tier, seed):
     for i in range(n):
         w = workers[i % len(workers)] if tier == "quick" else rnd.choice(workers)
         hc = (i % 2 == 0)
-        out.append(scen(i + 1, num_workers=w, health_check=hc, hc_conns=(rnd.choice([1, 3, 8, 20]) if hc else None), batch_size=batches[(i // 2) % 4],
+        out.append(scen(i + 1, num_workers=w, health_check=hc, hc_conns=(rnd.choice([1, 3, 8, 20]) if hc else None), hc_reset=(4 if hc and i % 4 == 0 else None), batch_size=batches[(i // 2) % 4],
                         fault_percentage=faults[i % 3], status_interval=intervals[(i // 3) % 3], client_stats=(i % 4 in (1, 2)),
                         source=("env" if i % 3 == 1 else "file"), probe_socks=32, probe_rounds=2, observe_ms=100, spread_probe=True,
                         # the process is suspended and resumed (job control, a container freeze, a debugger attaching): the workers'
@@ -241,7 +241,10 @@ def c18_scenarios(tier, seed):
                             batch_size=[64, 4, 1][i % 3], client_stats=(i % 4 == 3),
                             # the workers' other duties run alongside: every second configuration has the TCP health-check
                             # listeners (one per worker, sharing one port like the UDP sockets) and connections arriving on them
-                            health_check=(True if i % 2 == 1 else None), hc_conns=(6 if i % 2 == 1 else None)))
+                            health_check=(True if i % 2 == 1 else None), hc_conns=(6 if i % 2 == 1 else None), hc_reset=(5 if i % 4 == 1 else None),
+                            # ... and the statistics timers at their extremes: the smallest interval the configuration accepts (0 s)
+                            # and 1 s, instead of the default ten minutes
+                            status_interval=([0, 1][(i // 3) % 2] if i % 3 == 2 else None)))
             i += 1
     # stalled bursts: full batches wait for the workers (all of one protocol, and mixed), several in a row
     for k, (w, b) in enumerate([(1, 64), (2, 64), (1, 7)] if tier == "quick" else [(1, 64), (2, 64), (4, 64), (1, 7), (1, 33), (16, 64)]):
